@@ -154,6 +154,7 @@ const NV = 12
 var vertices [NV]s2.LatLng
 
 var frameName string
+var frameSet bool
 
 // FrameName is the frame set last.
 func FrameName() string { return frameName }
@@ -163,6 +164,10 @@ func init() { SetFrame("") }
 // SetFrame places the polygon: "" / "london" (the default), "antimeridian" (the vertices straddle longitude 180,
 // longitudes wrap) or "origin" (around 0,0, with vertex 4 EXACTLY latitude 0, longitude 0 - the zero LatLng).
 func SetFrame(name string) {
+	if frameSet && name == frameName {
+		return // nothing is written: goroutines a previous case left behind may still be reading the vertices
+	}
+	frameSet = true
 	frameName = name
 	const r = 0.0009
 	lat0, lng0 := 51.5300000, -0.1200000
